@@ -1,5 +1,7 @@
 SPECIFICATION Spec
-CONSTANTS MaxItems = 2
+CONSTANTS
+  MaxItems = 2
+  Tier = "quick"
 INVARIANTS RoundTrip Lens Sized
 CONSTRAINT Emit
 CHECK_DEADLOCK FALSE
